@@ -729,6 +729,7 @@ func (g *srvGen) opInject() {
 			before = g.s.E.S.VerifSnapshot()
 			have = true
 		})
+		now := glow.CurrentTimeslot()
 		g.s.E.S.VerifImpactRound()
 		server.VerifSetPoint("impact-between", nil)
 		orig.Lines += tmp.Lines
@@ -742,7 +743,7 @@ func (g *srvGen) opInject() {
 				old := before.Impact[id]
 				for i := range imp {
 					if imp[i] != old[i] {
-						lines = append(lines, fmt.Sprintf("srv.impact id=%d ts=%d rate=%d", id, after.ReportsOffset+uint32(i), float64bits(imp[i])))
+						lines = append(lines, fmt.Sprintf("srv.impact id=%d ts=%d rate=%d", id, now, float64bits(imp[i])))
 					}
 				}
 			}
